@@ -55,7 +55,7 @@ CLAIMS = {
     "C10": dict(
         text="Rule T contracts on tell_with_timeout / ask_with_timeout (and their erased forwarders): inner outcomes pass through unchanged with no extra dead letter, Err(Timeout{self.id, d, op}) "
              "exactly on the Elapsed branch with the caller's d; is_retryable == (self is Timeout). Deadline punctuality (never early / by the deadline) is tokio's timer (A8) and is not decided.",
-        note=SEND_NOTE),
+        note=SEND_NOTE + " The thread-based blocking timeout implementations are not under contract: the bounded real-time scenario blocking_timeout stands in on every run (labelled bounded)."),
     "C11": dict(
         text="Identity: spawn allocates the id by one atomic fetch_add(1) (freshness via a monotone floor, stable under interference) with type_name::<T>(); every constructor, clone, "
              "downgrade, upgrade and erased conversion copies id and channels (HandleView equality); is_alive / weak is_alive / upgrade are exactly the channel reads the property names.",
@@ -67,7 +67,7 @@ CLAIMS = {
     "C13": dict(
         text="record() logs exactly one dead letter with its arguments unchanged and bumps the counter by exactly one (test-utils); every send relation contains no dead letter on success and "
              "exactly one on failure with (self.id, M, reason matching the error, the operation label); timeout wrappers add one Timeout dead letter only on the Elapsed branch.",
-        note="blocking_*_with_timeout_impl (thread + nested runtime) are not under contract. " + SEND_NOTE),
+        note="blocking_*_with_timeout_impl (thread + nested runtime) are not under contract: the bounded scenarios blocking_timeout / blocking_api stand in on every run (labelled bounded). " + SEND_NOTE),
     "C14": dict(
         text="has_path is proved sound and complete against graph reachability (completeness by a machine-checked pigeonhole lemma, unbounded); ask returns normally only if caller != callee and no chain "
              "callee->caller existed in the graph seen under the single lock acquisition in which the edge is then inserted; all four hooks run inside the task-local scope; erased and timeout asks delegate to ask.",
